@@ -5,7 +5,7 @@ set -u
 ID=$1; W=/tmp/seed-$ID; S=/verif/seeded/$ID
 mkdir -p $S; cp -r $W/seed/* $S/ 2>/dev/null
 cd $W || exit 2
-DEMO=$(cat seed/demo_cmd.txt | tail -1 | sed "s#cd $W *&& *##")
+DEMO=$(grep -v "^#" seed/demo_cmd.txt | grep cargo | head -1 | sed "s#cd $W *&& *##")
 echo "== demo cmd: $DEMO"
 echo "== with patch:"; timeout 900 bash -c "$DEMO" > /tmp/seedv_$ID.with.log 2>&1; echo "exit=$?" | tee -a $S/verify.log
 grep -E "test result|panicked|FAILED" /tmp/seedv_$ID.with.log | head -5
